@@ -82,10 +82,13 @@ func readVaried(r io.Reader, in []byte, salt uint64) ([]byte, error) {
 		case 7:
 			l = 1 << 20
 		}
-		p := make([]byte, l)
+		p := mon.GuardedBuf(l)
 		n, err := r.Read(p)
 		if n < 0 || n > l {
 			return out, fmt.Errorf("Read with a buffer of %d bytes returned n=%d", l, n)
+		}
+		if !mon.GuardIntact(p) {
+			return out, fmt.Errorf("Read with a buffer of %d bytes (a window of a larger array) wrote behind the window", l)
 		}
 		out = append(out, p[:n]...)
 		if err == io.EOF {
